@@ -1727,6 +1727,112 @@ impl<'a> VisitMut for Rules<'a> {
                 return;
             }
         }
+        if self.ctx.on("R65") {
+            // R65: over a listed map M (std definitions of filter / map / collect; entries in insertion order):
+            //   `M.iter().filter(|(k, v)| C).map(|(k2, v2)| E).collect()`                      -> Vec of E for the accepted entries
+            //   `M.into_iter().filter(|(k, v)| C).collect::<IndexMap<String, T>>()`            -> new map with the accepted entries, in order
+            if let syn::Expr::MethodCall(col) = e {
+                if col.method == "collect" && col.args.is_empty() {
+                    let tf = col.turbofish.as_ref().map(|t| norm(&t.args.to_token_stream().to_string())).unwrap_or_default();
+                    // form 1
+                    if let syn::Expr::MethodCall(mp) = &*col.receiver {
+                        if mp.method == "map" && mp.args.len() == 1 {
+                            if let (syn::Expr::Closure(mc), syn::Expr::MethodCall(fl)) = (&mp.args[0], &*mp.receiver) {
+                                if fl.method == "filter" && fl.args.len() == 1 && mc.inputs.len() == 1 {
+                                    if let (syn::Expr::Closure(fc), syn::Expr::MethodCall(it)) = (&fl.args[0], &*fl.receiver) {
+                                        if it.method == "iter" && it.args.is_empty() && is_r13_map(self.ctx, &it.receiver) && fc.inputs.len() == 1 {
+                                            let fpat = match &fc.inputs[0] { syn::Pat::Type(pt) => (*pt.pat).clone(), p => p.clone() };
+                                            let mpat = match &mc.inputs[0] { syn::Pat::Type(pt) => (*pt.pat).clone(), p => p.clone() };
+                                            let m = (*it.receiver).clone();
+                                            let (fbody, mbody) = ((*fc.body).clone(), (*mc.body).clone());
+                                            let k = self.ctx.fresh();
+                                            let nn = syn::Ident::new(&format!("vx_n{}", k), proc_macro2::Span::call_site());
+                                            let ii = syn::Ident::new(&format!("vx_i{}", k), proc_macro2::Span::call_site());
+                                            let oo = syn::Ident::new(&format!("vx_out{}", k), proc_macro2::Span::call_site());
+                                            let kp = syn::Ident::new(&format!("vx_keep{}", k), proc_macro2::Span::call_site());
+                                            let en = syn::Ident::new(&format!("vx_en{}", k), proc_macro2::Span::call_site());
+                                            *e = syn::parse_quote!({
+                                                let mut #oo = Vec::new();
+                                                let #nn = #m.len();
+                                                for #ii in 0..#nn {
+                                                    let #en = #m.get_index(#ii).unwrap();
+                                                    let #kp = { let #fpat = &#en; #fbody };
+                                                    if #kp {
+                                                        let #mpat = #en;
+                                                        #oo.push(#mbody);
+                                                    }
+                                                }
+                                                #oo
+                                            });
+                                            self.ctx.used("R65");
+                                            syn::visit_mut::visit_expr_mut(self, e);
+                                            return;
+                                        }
+                                    }
+                                }
+                            }
+                        }
+                    }
+                    // form 2
+                    if tf.starts_with("IndexMap<String,") {
+                        if let syn::Expr::MethodCall(fl) = &*col.receiver {
+                            if fl.method == "filter" && fl.args.len() == 1 {
+                                if let (syn::Expr::Closure(fc), syn::Expr::MethodCall(it)) = (&fl.args[0], &*fl.receiver) {
+                                    if it.method == "into_iter" && it.args.is_empty() && is_r13_map(self.ctx, &it.receiver) && fc.inputs.len() == 1 {
+                                        let fpat = match &fc.inputs[0] { syn::Pat::Type(pt) => (*pt.pat).clone(), p => p.clone() };
+                                        let m = (*it.receiver).clone();
+                                        let fbody = (*fc.body).clone();
+                                        let mty: syn::Type = syn::parse_str(&tf).unwrap_or_else(|_| syn::parse_quote!(IndexMap<String, _>));
+                                        let k = self.ctx.fresh();
+                                        let nn = syn::Ident::new(&format!("vx_n{}", k), proc_macro2::Span::call_site());
+                                        let ii = syn::Ident::new(&format!("vx_i{}", k), proc_macro2::Span::call_site());
+                                        let oo = syn::Ident::new(&format!("vx_m{}", k), proc_macro2::Span::call_site());
+                                        let ss = syn::Ident::new(&format!("vx_src{}", k), proc_macro2::Span::call_site());
+                                        let kp = syn::Ident::new(&format!("vx_keep{}", k), proc_macro2::Span::call_site());
+                                        let en = syn::Ident::new(&format!("vx_en{}", k), proc_macro2::Span::call_site());
+                                        *e = syn::parse_quote!({
+                                            let mut #oo: #mty = IndexMap::new();
+                                            let #ss = #m;
+                                            let #nn = #ss.len();
+                                            for #ii in 0..#nn {
+                                                let #en = #ss.get_index(#ii).unwrap();
+                                                let #kp = { let #fpat = &#en; #fbody };
+                                                if #kp { #oo.insert(#en.0.clone(), #en.1.clone()); }
+                                            }
+                                            #oo
+                                        });
+                                        self.ctx.used("R65");
+                                        syn::visit_mut::visit_expr_mut(self, e);
+                                        return;
+                                    }
+                                }
+                            }
+                        }
+                    }
+                }
+            }
+        }
+        if self.ctx.on("R66") {
+            // R66: on a Vec<String> listed in opts.string_vecs: `V.sort()` -> trusted vx_sort_strings(&mut V) (a permutation in a total order);
+            // `V.contains(x)` -> trusted vx_contains_string(&V, x) (some element has the same characters)
+            if let syn::Expr::MethodCall(mc) = e {
+                let rtxt = norm(&mc.receiver.to_token_stream().to_string());
+                let listed = self.ctx.opts["string_vecs"].as_array().map(|a| a.iter().any(|v| v.as_str().map(norm).as_deref() == Some(&rtxt))).unwrap_or(false);
+                if listed && mc.method == "sort" && mc.args.is_empty() {
+                    let v = (*mc.receiver).clone();
+                    *e = syn::parse_quote!(vx_sort_strings(&mut #v));
+                    self.ctx.used("R66");
+                    return;
+                }
+                if listed && mc.method == "contains" && mc.args.len() == 1 {
+                    let (v, x) = ((*mc.receiver).clone(), mc.args[0].clone());
+                    *e = syn::parse_quote!(vx_contains_string(&#v, #x));
+                    self.ctx.used("R66");
+                    syn::visit_mut::visit_expr_mut(self, e);
+                    return;
+                }
+            }
+        }
         if self.ctx.on("R64") {
             // R64: `A.into_iter().flatten().collect()` over a Vec<Option<T>> -> loop that moves the elements out in order and pushes the payload of
             // every `Some` (std: Option is an iterator over zero or one item; flatten concatenates in order)
